@@ -14,6 +14,7 @@ import (
 	"testing"
 
 	"github.com/pion/rtp"
+	"github.com/pion/rtp/codecs"
 	"pgregory.net/rapid"
 )
 
@@ -442,7 +443,7 @@ func selfTestChecker() error {
 	return nil
 }
 
-const ruleC07 = "concurrent: rapid draws a plan (start value biased to 0,1,65534,65535; 2-16 goroutines; 70k-400k operations so that the value wraps 1-6 times; RollOverCount read mix; Gosched pattern; GOMAXPROCS 2/4/16); every operation is recorded with invocation/response stamps from one atomic counter and the complete history is decided by an exact linearizability checker for the counter specification (greedy with exchange argument, self-tested on hand-made illegal histories), plus multiset-of-values check; half of the shards run under the Go race detector. wrapburst: plans that put 2-16 goroutines x 2-24 calls (Next alternating with RollOverCount) right around the 65535->0 wrap, each repeated for 600 (thorough 3000) trials on fresh sequencers, every trial's history decided by the same checker. sequential: fixed sequencers stepped through two wraps from boundary/drawn starts (thorough: all 65536 starts), RollOverCount = zeros issued after every call; NewRandomSequencer first value < 2^15, every thousandth one stepped through two wraps. randomconcurrent: 2-16 goroutines make the very first 1-100 calls each on one fresh random sequencer together (300 trials per plan, 40 under the race detector): values handed out are min..min+N-1 without duplicate or gap, increasing per goroutine, min < 2^15, RollOverCount 0. Non-trivial = history with overlapping operations of different goroutines and >=1 wrap, or a sweep that wraps; distinct = FNV-64 of the plan"
+const ruleC07 = "concurrent: rapid draws a plan (start value biased to 0,1,65534,65535; 2-16 goroutines; 70k-400k operations so that the value wraps 1-6 times; RollOverCount read mix; Gosched pattern; GOMAXPROCS 2/4/16); every operation is recorded with invocation/response stamps from one atomic counter and the complete history is decided by an exact linearizability checker for the counter specification (greedy with exchange argument, self-tested on hand-made illegal histories), plus multiset-of-values check; half of the shards run under the Go race detector. wrapburst: plans that put 2-16 goroutines x 2-24 calls (Next alternating with RollOverCount) right around the 65535->0 wrap, each repeated for 600 (thorough 3000) trials on fresh sequencers, every trial's history decided by the same checker. sequential: fixed sequencers stepped through two wraps from boundary/drawn starts (thorough: all 65536 starts), RollOverCount = zeros issued after every call; NewRandomSequencer first value < 2^15, every thousandth one stepped through two wraps. viapacketizer: a fixed sequencer (start biased to the wrap) driven by a Packetizer through 1-12 Packetize/GeneratePadding calls of 1-8 packets: consecutive numbers on the packets, RollOverCount = zeros handed out after every call. randomconcurrent: 2-16 goroutines make the very first 1-100 calls each on one fresh random sequencer together (300 trials per plan, 40 under the race detector): values handed out are min..min+N-1 without duplicate or gap, increasing per goroutine, min < 2^15, RollOverCount 0. Non-trivial = history with overlapping operations of different goroutines and >=1 wrap, or a sweep that wraps; distinct = FNV-64 of the plan"
 
 func TestC07(t *testing.T) {
 	r := begin(t, "C07", "exploration", ruleC07)
@@ -515,6 +516,16 @@ func TestC07(t *testing.T) {
 			return &SeqSweep{Start: uint16(s), Steps: steps}
 		})
 	}
+	// the sequencer as applications drive it: through a Packetizer
+	subC07Pktz.rapidRun(r, n(300, 3000), func(t *rapid.T) *PktzSeqCase {
+		c := &PktzSeqCase{Start: uint16(biased(t, "start", 0, 65535, 0, 1, 65520, 65530, 65533, 65534, 65535))}
+		for i, k := 0, rapid.IntRange(1, 12).Draw(t, "ncalls"); i < k; i++ {
+			n := rapid.SampledFrom([]int{1, 1, 1, 2, 3, 5, 8, -1, -2, -3}).Draw(t, "npkts")
+			c.Packets = append(c.Packets, n)
+		}
+
+		return c
+	})
 	// random sequencer: first value below 2^15
 	subC07Rand.one(r, &RandSeqCase{Samples: n(20000, 100000)})
 }
@@ -627,6 +638,48 @@ var subC07RandConc = register("C07", "randomconcurrent", func(r *run, c *RandCon
 		}
 		if roc := seq.RollOverCount(); roc != 0 {
 			return ci, failf("trial %d: RollOverCount %d after %d calls from a start below 2^15", trial, roc, total)
+		}
+	}
+
+	return ci, nil
+})
+
+// PktzSeqCase: the sequencer is driven by a Packetizer (the way applications use it) rather than called
+// directly: the numbers on the packets are consecutive and RollOverCount equals the zeros handed out so far.
+type PktzSeqCase struct {
+	Start   uint16 `json:"start"`
+	Packets []int  `json:"packets"` // packets per call; negative = GeneratePadding(-n)
+}
+
+var subC07Pktz = register("C07", "viapacketizer", func(r *run, c *PktzSeqCase) (CaseInfo, error) {
+	var ci CaseInfo
+	seq := rtp.NewFixedSequencer(c.Start)
+	const mtu = 112 // 100 payload bytes per packet
+	pk := rtp.NewPacketizer(mtu, 96, 0x1234, &codecs.G711Payloader{}, seq, 8000)
+	next, zeros := c.Start, uint64(0)
+	for i, n := range c.Packets {
+		var pkts []*rtp.Packet
+		if n < 0 {
+			pkts = pk.GeneratePadding(uint32(-n))
+			n = -n
+		} else {
+			pkts = pk.Packetize(make([]byte, 100*n), 160)
+		}
+		if len(pkts) != n {
+			return ci, failf("call %d: %d packets, want %d", i, len(pkts), n)
+		}
+		for j, p := range pkts {
+			if p.SequenceNumber != next {
+				return ci, failf("call %d packet %d: sequence number %d, want %d (fixed sequencer started at %d)", i, j, p.SequenceNumber, next, c.Start)
+			}
+			if next == 0 {
+				zeros++
+				ci.Nontrivial = true
+			}
+			next++
+		}
+		if roc := seq.RollOverCount(); roc != zeros {
+			return ci, failf("after call %d (%d packets, last sequence number %d) of a packetizer: RollOverCount %d, %d zeros were handed out (start %d)", i, n, next-1, roc, zeros, c.Start)
 		}
 	}
 
